@@ -440,3 +440,151 @@ Proof.
   destruct (rebuild pls sls _ None 0 cap) as [ss'|c0|e]; try discriminate.
   intros H. injection H as <- <-. specialize (SZ _ eq_refl). split; [unfold len in *; lia|exact E].
 Qed.
+
+(** ** C12 for DELTA_BYTE_ARRAY *)
+Lemma spec_join_tail vs : forall prev, Forall str_ok vs ->
+  spec_join prev (map N.of_nat (prefixes prev vs)) (suffixes (prefixes prev vs) vs) = Some vs.
+Proof.
+  induction vs as [|v t IH]; intros prev H; [reflexivity|]. inversion H as [|? ? _ Ht]; subst.
+  cbn [prefixes suffixes combine map fst snd spec_join]. fold (suffixes (prefixes v t) t).
+  destruct (common_prefix_le prev v) as [P1 P2].
+  assert (E : (len prev <? N.of_nat (common_prefix prev v)) = false) by (apply N.ltb_ge; unfold len; lia).
+  rewrite E, Nat2N.id. rewrite common_prefix_firstn, firstn_skipn. rewrite IH by exact Ht. reflexivity.
+Qed.
+
+(** the encoder's output is read back by the reference decoder *)
+Theorem delta_strings_encode_conforms vs bs : vs <> [] -> Forall str_ok vs -> len vs < 2 ^ 31 ->
+  delta_strings_encode vs = Ok bs -> spec_delta_strings_decode bs = Some (vs, []).
+Proof.
+  intros Hne Hok Hl H. unfold delta_strings_encode in H. destruct vs as [|v0 t] eqn:Ev; [contradiction|]. rewrite <- Ev in *.
+  set (ps := prefix_lengths vs) in *. fold (suffixes ps vs) in H. set (sufs := suffixes ps vs) in *.
+  destruct (delta_encode_int32 (map N.of_nat ps) (lengths_capacity (len vs))) as [pb|c|e] eqn:E1; try discriminate.
+  destruct (delta_encode_int32 (map len sufs) (lengths_capacity (len vs))) as [sb|c|e] eqn:E2; try discriminate.
+  injection H as <-. apply delta_encode_int32_ok in E1. apply delta_encode_int32_ok in E2. subst pb sb.
+  assert (Lps : length ps = length vs) by (unfold ps; rewrite Ev; cbn [prefix_lengths length]; rewrite prefixes_length; reflexivity).
+  assert (Lsf : length sufs = length vs) by (apply suffixes_length; exact Lps).
+  assert (Hsok : Forall str_ok sufs) by (apply suffixes_ok; exact Hok).
+  assert (Hpu : Forall u32v (map N.of_nat ps)).
+  { unfold ps. rewrite Ev. cbn [prefix_lengths map]. constructor; [reflexivity|]. apply prefixes_u32. rewrite Ev in Hok. inversion Hok; assumption. }
+  assert (Lp : len (map N.of_nat ps) = len vs) by (unfold len; rewrite map_length, Lps; reflexivity).
+  assert (Lsl : len (map len sufs) = len vs) by (unfold len; rewrite map_length, Lsf; reflexivity).
+  assert (Hpne : map N.of_nat ps <> []) by (unfold ps; rewrite Ev; discriminate).
+  assert (Hsne : map len sufs <> []).
+  { intros Q. apply (f_equal (@length N)) in Q. rewrite map_length, Lsf, Ev in Q. discriminate. }
+  assert (HW : len vs < W64) by (eapply N.lt_trans; [exact Hl|apply pow31_lt]).
+  unfold spec_delta_strings_decode.
+  rewrite (delta32_encode_conforms_rest _ (delta_bytes_int32 (map len sufs) ++ concat sufs) Hpne Hpu ltac:(rewrite Lp; exact HW)).
+  cbn [ds_values ds_rest]. unfold spec_delta_length_decode.
+  rewrite (delta32_encode_conforms_rest _ (concat sufs) Hsne (lens_u32 _ Hsok) ltac:(rewrite Lsl; exact HW)).
+  cbn [ds_values ds_rest]. rewrite <- (app_nil_r (concat sufs)), (spec_cut_concat sufs [] Hsok).
+  unfold sufs, ps. rewrite Ev. cbn [prefix_lengths suffixes combine map fst snd]. fold (suffixes (prefixes v0 t) t).
+  change (skipn 0 v0) with v0. cbn [spec_join]. change (len [] <? N.of_nat 0) with false. cbv iota.
+  change (firstn (N.to_nat (N.of_nat 0)) []) with (@nil N). cbn [app].
+  rewrite Ev in Hok. inversion Hok as [|? ? _ Ht]; subst. rewrite spec_join_tail by exact Ht. reflexivity.
+Qed.
+
+Lemma spec_cut_struct ls : forall data ss rest, spec_cut ls data = Some (ss, rest) ->
+  data = concat ss ++ rest /\ map len ss = ls /\ Forall (fun l => l < 2 ^ 31) ls.
+Proof.
+  induction ls as [|l t IH]; intros data ss rest H.
+  - injection H as <- <-. repeat split; constructor.
+  - cbn [spec_cut] in H. destruct (2 ^ 31 <=? l) eqn:E; [discriminate|]. apply N.leb_gt in E.
+    destruct (take (N.to_nat l) data) as [[s r]|] eqn:T; [|discriminate].
+    destruct (spec_cut t r) as [[ss' r']|] eqn:SC; [|discriminate]. injection H as <- <-.
+    destruct (IH _ _ _ SC) as [-> [M F]]. destruct (take_spec _ _ _ _ T) as [-> Ls].
+    cbn [concat map]. rewrite <- app_assoc. repeat split; [|constructor; assumption].
+    f_equal; [unfold len; lia|exact M].
+Qed.
+
+Definition prev_matches (prevo : option (list N)) (prevl : list N) : Prop :=
+  match prevo with Some pv => pv = prevl | None => prevl = [] end.
+
+Lemma rebuild_join ps : forall sufs prevl prevo strs woff cap rest, spec_join prevl ps sufs = Some strs ->
+  prev_matches prevo prevl -> len prevl < 2 ^ 31 -> Forall (fun s => len s < 2 ^ 31) strs ->
+  woff + len (concat strs) <= cap ->
+  rebuild ps (map len sufs) (concat sufs ++ rest) prevo woff cap = Ok strs /\ Forall (fun p => p < 2 ^ 31) ps.
+Proof.
+  induction ps as [|p pt IH]; intros sufs prevl prevo strs woff cap rest H PM Hpl Hs Hcap.
+  - destruct sufs; [|discriminate]. injection H as <-. split; [reflexivity|constructor].
+  - destruct sufs as [|s st]; [discriminate|]. cbn [spec_join] in H.
+    destruct (len prevl <? p) eqn:E; [discriminate|]. apply N.ltb_ge in E.
+    destruct (spec_join (firstn (N.to_nat p) prevl ++ s) pt st) as [r|] eqn:SJ; [|discriminate]. injection H as <-.
+    inversion Hs as [|? ? Hstr Hr]; subst. cbn [concat] in Hcap. rewrite len_app in Hcap.
+    assert (Lstr : len (firstn (N.to_nat p) prevl ++ s) = p + len s).
+    { rewrite len_app. unfold len at 1. rewrite firstn_length. unfold len in E. lia. }
+    rewrite Lstr in *. cbn [map concat rebuild].
+    rewrite u32_small by (eapply N.lt_trans; [exact Hstr|reflexivity]).
+    assert (E1 : (cap <? woff + (p + len s)) = false) by (apply N.ltb_ge; lia). rewrite E1.
+    assert (PRE : (if 0 <? p
+                   then match prevo with
+                        | None => Err ERR_DECODE
+                        | Some pv => if (Z.of_N p >? i32_of (len pv))%Z then Err ERR_DECODE
+                                     else match take (N.to_nat p) pv with Some (pre, _) => Ok pre | None => Fault OobRead end
+                        end
+                   else Ok []) = Ok (firstn (N.to_nat p) prevl)).
+    { destruct (0 <? p) eqn:E0.
+      - apply N.ltb_lt in E0. destruct prevo as [pv|]; cbn [prev_matches] in PM.
+        + subst pv. rewrite i32_of_len by exact Hpl.
+          assert (E2 : (Z.of_N p >? Z.of_N (len prevl))%Z = false) by (rewrite Z.gtb_ltb; apply Z.ltb_ge; lia).
+          rewrite E2, take_some by (unfold len in E; lia). reflexivity.
+        + subst prevl. unfold len in E. cbn [length] in E. lia.
+      - apply N.ltb_ge in E0. assert (p = 0) as -> by lia. reflexivity. }
+    rewrite PRE. rewrite <- app_assoc, len_nat, take_app.
+    destruct (IH st (firstn (N.to_nat p) prevl ++ s) (Some (firstn (N.to_nat p) prevl ++ s)) r (woff + (p + len s)) cap rest SJ
+                eq_refl ltac:(rewrite Lstr; exact Hstr) Hr ltac:(lia)) as [RB FP].
+    rewrite RB. split; [reflexivity|]. constructor; [lia|exact FP].
+Qed.
+
+Lemma spec_join_length prev ps : forall sufs strs, spec_join prev ps sufs = Some strs ->
+  length strs = length ps /\ length sufs = length ps.
+Proof.
+  revert prev. induction ps as [|p pt IH]; intros prev sufs strs H.
+  - destruct sufs; [|discriminate]. injection H as <-. split; reflexivity.
+  - destruct sufs as [|s st]; [discriminate|]. cbn [spec_join] in H. destruct (len prev <? p); [discriminate|].
+    destruct (spec_join _ pt st) as [r|] eqn:SJ; [|discriminate]. injection H as <-.
+    destruct (IH _ _ _ SJ). cbn [length]. split; lia.
+Qed.
+
+(** the decoder accepts every stream the reference decoder accepts (both length streams at geometry 128/4; a work
+    buffer that holds all strings) *)
+Theorem delta_strings_decode_accepts bs vs rest work_cap : bytes bs -> vs <> [] -> len vs < 2 ^ 31 ->
+  Forall (fun s => len s < 2 ^ 31) vs -> len (concat vs) <= work_cap ->
+  spec_delta_strings_decode bs = Some (vs, rest) ->
+  (exists st1 st2, spec_delta_decode 32 bs = Some st1 /\ ds_block st1 = 128 /\ ds_minis st1 = 4 /\
+                   spec_delta_decode 32 (ds_rest st1) = Some st2 /\ ds_block st2 = 128 /\ ds_minis st2 = 4) ->
+  delta_strings_decode bs (len vs) work_cap = Ok (vs, len bs - len rest).
+Proof.
+  intros Hb Hne Hl Hs Hcap H [st1 [st2 [S1 [B1 [M1 [S2 [B2 M2]]]]]]].
+  unfold spec_delta_strings_decode in H. rewrite S1 in H. unfold spec_delta_length_decode in H. rewrite S2 in H.
+  destruct (spec_cut (ds_values st2) (ds_rest st2)) as [[sufs r]|] eqn:SC; [|discriminate].
+  destruct (spec_join [] (ds_values st1) sufs) as [strs|] eqn:SJ; [|discriminate]. injection H as <- <-.
+  destruct (spec_join_length _ _ _ _ SJ) as [L1 L2].
+  destruct (spec_cut_struct _ _ _ _ SC) as [Er2 [Ml Fl]].
+  destruct (spec_delta_decode_suffix _ _ _ S1) as [p1 Ep1]. destruct (spec_delta_decode_suffix _ _ _ S2) as [p2 Ep2].
+  assert (Hb1 : bytes (ds_rest st1)) by (rewrite Ep1 in Hb; eapply bytes_app_r; exact Hb).
+  assert (Lv1 : len (ds_values st1) = len strs) by (unfold len; rewrite L1; reflexivity).
+  assert (Lv2 : len (ds_values st2) = len strs).
+  { rewrite <- Ml. unfold len. rewrite map_length, L2, L1. reflexivity. }
+  unfold delta_strings_decode.
+  assert (E0 : (len strs =? 0) = false) by (apply N.eqb_neq; destruct strs; [contradiction|unfold len; cbn [length]; lia]).
+  rewrite E0. rewrite <- Lv1.
+  rewrite (delta32_decode_accepts bs st1 Hb S1 B1 M1 ltac:(rewrite Lv1; exact Hl)).
+  assert (SK1 : skipn (N.to_nat (len bs - len (ds_rest st1))) bs = ds_rest st1).
+  { rewrite Ep1 at 2. rewrite Ep1 at 1. rewrite len_app.
+    replace (len p1 + len (ds_rest st1) - len (ds_rest st1)) with (len p1) by lia. rewrite len_nat. apply skipn_app_exact. }
+  rewrite SK1. rewrite Lv1, <- Lv2.
+  rewrite (delta32_decode_accepts _ st2 Hb1 S2 B2 M2 ltac:(rewrite Lv2; exact Hl)).
+  assert (SK2 : skipn (N.to_nat (len (ds_rest st1) - len (ds_rest st2))) (ds_rest st1) = ds_rest st2).
+  { rewrite Ep2 at 2. rewrite Ep2 at 1. rewrite len_app.
+    replace (len p2 + len (ds_rest st2) - len (ds_rest st2)) with (len p2) by lia. rewrite len_nat. apply skipn_app_exact. }
+  rewrite SK2.
+  destruct (rebuild_join (ds_values st1) sufs [] None strs 0 work_cap r SJ eq_refl ltac:(reflexivity) Hs ltac:(lia)) as [RB FP].
+  rewrite (any_negative_false _ Fl), (any_negative_false _ FP). cbn [orb].
+  assert (Lb : len bs = len p1 + len (ds_rest st1)) by (rewrite Ep1 at 1; apply len_app).
+  assert (Lr1 : len (ds_rest st1) = len p2 + len (ds_rest st2)) by (rewrite Ep2 at 1; apply len_app).
+  assert (Lr2 : len (ds_rest st2) = sumN (ds_values st2) + len r).
+  { rewrite Er2 at 1. rewrite len_app, <- Ml, sumN_lens. reflexivity. }
+  assert (E3 : (len bs <? len bs - len (ds_rest st1) + (len (ds_rest st1) - len (ds_rest st2)) + sumN (ds_values st2)) = false)
+    by (apply N.ltb_ge; lia).
+  rewrite E3. rewrite Er2 at 1. rewrite <- Ml at 1. rewrite RB. f_equal. f_equal. lia.
+Qed.
